@@ -648,14 +648,14 @@ def check_stores(names, kinds, eol, sep, block, expected, body, res):
 
 
 # --------------------------------------------------------------------------- the relay's 7-bit decision
-def check_relay_7bit(text, encname, pre8, post8, res):
+def check_relay_7bit(text, encname, pre8, post8, res, utf8=False):
     """The place where the 7-bit conversion is decided: a real SmtpRelayClient (STARTTLS) in front of a scripted next hop
     that offers 8BITMIME before and/or after the handshake.  Without 8BITMIME after the handshake an 8-bit body must be
     converted (encoder given: the hop receives pure ASCII) or refused -- never passed on as it is."""
     from engine.core import Chooser
     from worlds.relay_world import SmtpRelayWorld, classify
     body = text.encode('utf-8')
-    cfg = dict(lmtp=False, n=1, tls='starttls', tls_required=True, peer_kw={'eightbit': pre8, 'eightbit_after_tls': post8},
+    cfg = dict(lmtp=False, n=1, tls='starttls', tls_required=True, peer_kw={'eightbit': pre8, 'eightbit_after_tls': post8, 'extra_exts': ['SMTPUTF8'] if utf8 else []},
                body=b'Subject: t\r\nContent-Type: text/plain; charset=utf-8\r\n\r\n' + body, script={})
     if ENCODERS[encname] is not None:
         cfg['binary_encoder'] = ENCODERS[encname]
@@ -666,9 +666,9 @@ def check_relay_7bit(text, encname, pre8, post8, res):
     res.evaluations += 1
     res.count('relay_7bit_cases')
     res.outcome(('relay7', whole, len(received), pre8, post8, encname))
-    rep = {'fam': 'relay7', 'text': text, 'enc': encname, 'pre8': pre8, 'post8': post8}
-    desc = 'next hop offers 8BITMIME before TLS: %r, after TLS: %r; encoder %s; body %r: attempt -> %s, hop received %r' % (
-        pre8, post8, encname, body, whole, received)
+    rep = {'fam': 'relay7', 'text': text, 'enc': encname, 'pre8': pre8, 'post8': post8, 'utf8': utf8}
+    desc = 'next hop offers 8BITMIME before TLS: %r, after TLS: %r%s; encoder %s; body %r: attempt -> %s, hop received %r' % (
+        pre8, post8, ', SMTPUTF8 throughout' if utf8 else '', encname, body, whole, received)
     has8 = any(c > 127 for c in body)
     out = []
     if not has8:
@@ -746,9 +746,10 @@ def run_config(cfg, tier, seed):
             for encname in ('base64', 'quoted-printable', 'none'):
                 for pre8 in (True, False):
                     for post8 in (True, False):
-                        res.interesting(('relay7', text, encname, pre8, post8))
-                        for sig, msg, rep in check_relay_7bit(text, encname, pre8, post8, res):
-                            res.violation(sig, msg, rep)
+                        for utf8 in (False, True):
+                            res.interesting(('relay7', text, encname, pre8, post8, utf8))
+                            for sig, msg, rep in check_relay_7bit(text, encname, pre8, post8, res, utf8):
+                                res.violation(sig, msg, rep)
         res.sample({'family': 'R7', 'what': 'SmtpRelayClient 7-bit decision against a scripted hop, 8BITMIME before/after STARTTLS'})
     elif fam in ('W', 'WL'):
         gen = (byte_strings(WEAK_ALPHABET, 0, t['weak_max']) if fam == 'W'
@@ -819,7 +820,7 @@ def replay(rep):
         return False, 'every store returns the envelope unchanged'
     if fam == 'relay7':
         res = Result()
-        vs = check_relay_7bit(rep['text'], rep['enc'], rep['pre8'], rep['post8'], res)
+        vs = check_relay_7bit(rep['text'], rep['enc'], rep['pre8'], rep['post8'], res, rep.get('utf8', False))
         if vs:
             return True, vs[0][1]
         return False, 'the relay converts or refuses 8-bit data when the hop does not take it'
